@@ -272,3 +272,103 @@ Definition set_ss_state (x : sstream) (s : sbytes) : sstream := mkSS (ss_raw x) 
 (* io::Result<usize> / io::Result<()> of the translated functions as the hand model's [sres] *)
 Definition sres_of_n (r : N + ekind) : sres := match r with inl n => ROkN n | inr e => RErr e end.
 Definition sres_of_unit (r : unit + ekind) : sres := match r with inl _ => ROk | inr e => RErr e end.
+
+(* ---- vocabulary of the function translator, second part (tools/gen_fn_auto.py, Generated/AutoFn.v:
+   crates/anstream/src/auto.rs and the constructors / accessors of strip.rs) ----
+   Small adapters only: no existing definition changes meaning. *)
+
+(* auto.rs `enum StreamInner<S>` on a non-Windows target (the Wincon variant is compiled out) and
+   `struct AutoStream<S> { inner }` *)
+Inductive sinner : Set := SIPass (w : writer) | SIStrip (x : sstream).
+Record astream : Set := mkAStream { as_inner : sinner }.
+Definition set_as_inner (a : astream) (i : sinner) : astream := mkAStream i.
+
+(* the hand model keeps the arm, the strip state and the inner writer side by side
+   ([auto_op m s w]); as a value of the Rust type: *)
+Definition as_of (m : amode) (s : sbytes) (w : writer) : astream :=
+  match m with MPass => mkAStream (SIPass w) | MStrip => mkAStream (SIStrip (mkSS w s)) end.
+Definition as_mode (a : astream) : amode :=
+  match as_inner a with SIPass _ => MPass | SIStrip _ => MStrip end.
+Definition as_writer (a : astream) : writer :=
+  match as_inner a with SIPass w => w | SIStrip x => ss_raw x end.
+(* the strip state of a pass-through stream does not exist: [d] stands for it *)
+Definition as_sbytes (d : sbytes) (a : astream) : sbytes :=
+  match as_inner a with SIPass _ => d | SIStrip x => ss_state x end.
+
+Definition cchoice_eqb (a b : cchoice) : bool :=
+  match a, b with
+  | CAuto, CAuto | CAlwaysAnsi, CAlwaysAnsi | CAlways, CAlways | CNever, CNever => true
+  | _, _ => false
+  end.
+
+(* what the raw stream `S: RawStream` answers besides being a writer, fixed per stream:
+   [ac_decided] = `choice(&raw)` (the free function of auto.rs, C09's subject), [ac_tty] =
+   `raw.is_terminal()`, [ac_wv_all] = the raw stream has real vectored writes (Vec<u8>, File) *)
+Record acfg : Set := mkACfg { ac_decided : cchoice; ac_tty : bool; ac_wv_all : bool }.
+Definition raw_choice (cf : acfg) (w : writer) : cchoice := ac_decided cf.
+Definition raw_is_terminal (cf : acfg) (w : writer) : bool := ac_tty cf.
+(* Stdout::lock / Stderr::lock: the guard writes to the same stream (the lock discipline is C19's subject) *)
+Definition raw_lock (w : writer) : writer := w.
+(* anstyle_query::windows::enable_ansi_colors() on a non-Windows target: no effect, None *)
+Definition raw_enable_ansi_colors : option bool := None.
+
+(* calls on the guard `w.as_locked_write()` of the pass-through arm: the inner writer's own methods
+   (std's defaults for write_all / write_fmt / write_vectored, as in [pass_op]) *)
+Definition raw_write (w : writer) (buf : list N) : writer * (N + ekind) := w_write w buf.
+Definition raw_write_all (w : writer) (buf : list N) : writer * (unit + ekind) := w_write_all w buf.
+Definition raw_write_vectored (cf : acfg) (w : writer) (bufs : list (list N)) : writer * (N + ekind) :=
+  w_write w (if ac_wv_all cf then concat bufs else first_nonempty bufs).
+Definition raw_flush (w : writer) : writer * (unit + ekind) := (w_flush w, inl tt).
+Fixpoint raw_write_fmt (w : writer) (frags : list (list N)) : writer * (unit + ekind) :=
+  match frags with
+  | [] => (w, inl tt)
+  | fr :: rest =>
+      let '(w1, r) := w_write_all w fr in
+      match r with
+      | inl _ => raw_write_fmt w1 rest
+      | inr e => (w1, inr e)
+      end
+  end.
+
+(* the answers of the accessors, for the proofs of Proofs/AutoGen.v *)
+Definition auto_into_inner (m : amode) (s : sbytes) (w : writer) : writer := w.
+Definition auto_is_terminal (cf : acfg) (m : amode) : bool := ac_tty cf.
+
+(* ---- the lock discipline (C19), vocabulary of the second translation `gl_*` in Generated/AutoFn.v ----
+   A raw stream that records WHEN its lock is taken and given back, as positions in the inner
+   writer's call history ([w_calls], which already records every inner write / flush in order):
+   `as_locked_write()` appends [LAcq n] and hands out a guard = a view of the writer inside; the
+   guard's destructor, run at the end of the temporary scope the guard was created in, appends
+   [LRel n']; every inner call made in between lies at the positions n .. n'-1 of the history. *)
+Inductive lmark : Set := LAcq (ncalls : nat) | LRel (ncalls : nat).
+Record lraw : Set := mkLR { lr_w : writer; lr_log : list lmark }.
+Definition set_lr_w (x : lraw) (w : writer) : lraw := mkLR w (lr_log x).
+Definition lr_acquire (x : lraw) : lraw := mkLR (lr_w x) (lr_log x ++ [LAcq (length (w_calls (lr_w x)))]).
+Definition lr_release (x : lraw) : lraw := mkLR (lr_w x) (lr_log x ++ [LRel (length (w_calls (lr_w x)))]).
+
+Record lsstream : Set := mkLSS { lss_raw : lraw; lss_state : sbytes }.
+Definition set_lss_raw (x : lsstream) (r : lraw) : lsstream := mkLSS r (lss_state x).
+Definition set_lss_state (x : lsstream) (s : sbytes) : lsstream := mkLSS (lss_raw x) s.
+Inductive lsinner : Set := LSIPass (w : lraw) | LSIStrip (x : lsstream).
+Record lastream : Set := mkLAS { las_inner : lsinner }.
+Definition set_las_inner (a : lastream) (i : lsinner) : lastream := mkLAS i.
+
+(* forgetting the lock log gives the streams of the first translation *)
+Definition lss_erase (x : lsstream) : sstream := mkSS (lr_w (lss_raw x)) (lss_state x).
+Definition las_erase (a : lastream) : astream :=
+  match las_inner a with
+  | LSIPass w => mkAStream (SIPass (lr_w w))
+  | LSIStrip x => mkAStream (SIStrip (lss_erase x))
+  end.
+Definition las_raw (a : lastream) : lraw :=
+  match las_inner a with LSIPass w => w | LSIStrip x => lss_raw x end.
+(* a stream value with the lock log [log] over the plain stream [a] *)
+Definition las_with (log : list lmark) (a : astream) : lastream :=
+  match as_inner a with
+  | SIPass w => mkLAS (LSIPass (mkLR w log))
+  | SIStrip x => mkLAS (LSIStrip (mkLSS (mkLR (ss_raw x) log) (ss_state x)))
+  end.
+(* "the call took the lock once, around all its inner calls": the log grows by one Acquire at
+   the length of the history before the call and one Release at its length after the call *)
+Definition lock_once (log : list lmark) (before after : writer) : list lmark :=
+  log ++ [LAcq (length (w_calls before)); LRel (length (w_calls after))].
